@@ -134,6 +134,23 @@ def run(chk, w):
         for i in g.all_insts():
             if i.op == "load" and i["ptr"].get("k") == "global" and i["ptr"]["name"] == "bidib_initial_values":
                 lists.add(i["ptr"].get("off", 0))
+        # lists and setters named in a constant table that the routine copies into a local and walks
+        # (`{&bidib_initial_values.points, bidib_switch_point}, {&bidib_initial_values.signals, bidib_set_signal}, ...`)
+        table_fns = set()
+
+        def _walk_init(x):
+            if isinstance(x, list):
+                for y in x:
+                    _walk_init(y)
+            elif isinstance(x, dict) and x.get("g") == "bidib_initial_values":
+                lists.add(x.get("off", 0))
+            elif isinstance(x, dict) and x.get("g") in P.functions:
+                table_fns.add(x["g"])
+        for c in g.calls():
+            if c.callee and c.callee.startswith("llvm.memcpy") and len(c.args) > 1 and c.args[1].get("k") == "global":
+                tg = P.globals.get(c.args[1]["name"]) or {}
+                if tg.get("const") and isinstance(tg.get("init"), list):
+                    _walk_init(tg["init"])
         gd = P.globals.get("bidib_initial_values")
         nmem = len(P.di_members(gd.get("ditype", -1)) or []) if gd else 0
         if nmem and len(lists) == nmem:
@@ -141,6 +158,14 @@ def run(chk, w):
         else:
             chk.violation("C20-INIT", g.name, "lists", "%s:%d" % (g.relfile, g.line), "only %d of the %d configured initial-value lists are applied" % (len(lists), nmem))
         for c in g.calls():
+            if c.callee is None and table_fns:
+                # a call through the table: every function the table names is a possible callee
+                for tf in sorted(table_fns):
+                    if tf in w.api and "highlevel" in w.api[tf]["header"]:
+                        chk.ok("C20-INIT", 1, {"through": tf, "via": "function table"})
+                    else:
+                        chk.violation("C20-INIT", g.name, tf, c.loc(), "initial values are commanded through %s (named in a function table), not through a public high-level command" % tf)
+                continue
             if c.callee in P.functions and P.functions[c.callee].blocks and (c.callee in S.constructors or rules.call_reaches(P, c, set(S.constructors))):
                 if c.callee in w.api and "highlevel" in w.api[c.callee]["header"] or c.callee.endswith("flush"):
                     chk.ok("C20-INIT", 1, {"through": c.callee})
